@@ -36,6 +36,7 @@ func runC20(r *engine.Run) {
 	r.Rule("PAIR-unlock", "every Lock/RLock of a mutex is followed on every path to a return of the acquiring function by the matching Unlock/RUnlock on the same mutex or by a deferred one registered on the path: no operation returns with the lock held (every later operation on the object would block)")
 	r.Rule("REF-pooled", "the byte view (Bytes()) of a pooled zap encoder buffer is only handed to calls while the function owns the buffer: it is never returned, stored, put into a map, sent, given to a goroutine, or used after a Free of that buffer")
 	r.Rule("WHO-filter", "the cores of a logger are combined by a plain zapcore.NewTee and core/logging builds no sampling or level-raising core (NewSampler*, NewIncreaseLevelCore, IncreaseLevel): every entry a logger accepts reaches the in-memory core")
+	r.Rule("WHO-reorder", "no function of core/logging hands a slice of logged entries to a sorting function (sort.Slice/SliceStable/Sort/Stable, slices.Sort*): the order of a snapshot is the order the ring was written in, never an order derived from a field of the entries (timestamps are taken before the write lock or supplied by the caller)")
 	r.NotDec = append(r.NotDec, "'exactly the most recent N, newest first' as a sequence property of GetLogs' index arithmetic")
 	const rule = "LOCK-ring"
 	entries := exportedEntries(r, rule, pkgLog, map[string]bool{"MemCore": true, "MemLogger": true})
@@ -88,6 +89,7 @@ func runC20(r *engine.Run) {
 	whoFilter(r, "WHO-filter")
 	snapshotCollects(r, "SNAPSHOT-all")
 	writeAtRoot(r, "AGREE-share")
+	whoReorder(r, "WHO-reorder")
 }
 
 // sameCore: within one function, the core whose mu is locked is the core
